@@ -4188,6 +4188,104 @@ def spec_hidden_element_nothing(ctx, make_exe):
     return {"function": f.name, "paths": len(outs)}
 
 # ----------------------------------------------------------------------------
+# SPEC: the string route and the lines route end on the same list of lines: SubRenderer::into_lines returns exactly
+# the renderer's lines after flush_wrapping, and SubRenderer::into_string prints exactly those lines after the same
+# flush_wrapping - neither adds, drops or reorders a line on its own.
+# ----------------------------------------------------------------------------
+
+def spec_routes_same_lines(ctx, make_exe):
+    import summaries
+    orig = summaries.summarize
+    fl = the([g for g in ctx.find(r"::into_lines$") if g.args and "SubRenderer" in g.args[0][1]], "SubRenderer::into_lines")
+    fs = the([g for g in ctx.find(r"::into_string$") if g.args and "SubRenderer" in g.args[0][1]], "SubRenderer::into_string")
+    total = 0
+    mutators = re.compile(r"(add_line|add_empty_line|push_back|push_front|push|append|extend|insert|pop_back|pop_front|pop|clear|split_off|retain|remove|drain|truncate)(::<.*>)?$")
+    for f in (fl, fs):
+        exe = make_exe(loop_bound=6)
+        st = State()
+        lines = VVec([VOpaque("RenderLine", "line0"), VOpaque("RenderLine", "line1")]) if f is fs else VOpaque("LinkedList<RenderLine>", "the_lines")
+        sub = _agg(ctx, "SubRenderer", lines=lines)
+
+        def summ(exe_, st_, f_, bb_, callee, args, dest_ty):
+            c = callee.strip()
+            if re.search(r"SubRenderer::<D>::flush_wrapping$", c):
+                ok = st_.clone()
+                err = st_.clone()
+                return [(ok, VAgg("Result::Ok", "Ok", [VUnit()])), (err, VAgg("Result::Err", "Err", [VAgg("TooNarrow", "TooNarrow", [])]))]
+            if re.search(r"RenderLine::<.*>::to_string$", c):
+                v = args[0]
+                while isinstance(v, VRef):
+                    v = exe_.deref(st_, v)
+                st_.calls.append(("printed", [getattr(v, "name", "?")], f_.name, bb_))
+                return [(st_, VOpaque("String", "text_of_" + getattr(v, "name", "?")))]
+            if re.search(r"^<&LinkedList<.*> as IntoIterator>::into_iter$|LinkedList::<.*>::iter$", c):
+                v = args[0]
+                while isinstance(v, VRef):
+                    v = exe_.deref(st_, v)
+                if isinstance(v, VVec):
+                    return [(st_, VIter("vec", v, 0))]
+                return None
+            if re.search(r"^<std::collections::linked_list::Iter<'_, .*> as Iterator>::next$", c):
+                it = args[0]
+                while isinstance(it, VRef):
+                    it_ref = it
+                    it = exe_.deref(st_, it)
+                if isinstance(it, VIter) and isinstance(it.src, VVec):
+                    if it.pos < len(it.src.elems):
+                        el = it.src.elems[it.pos]
+                        exe_.write_ref(st_, it_ref, [], VIter("vec", it.src, it.pos + 1), None)
+                        return [(st_, VAgg("Option::Some", "Some", [VRef("val", el)]))]
+                    return [(st_, VAgg("Option::None", "None", []))]
+                return None
+            if re.search(r"^String::push_str$", c):
+                v = args[1]
+                while isinstance(v, VRef):
+                    v = exe_.deref(st_, v)
+                st_.calls.append(("appended", [getattr(v, "name", "?")], f_.name, bb_))
+                return [(st_, VUnit())]
+            if re.search(r"^String::push$", c):
+                e = z3.simplify(args[1].e) if hasattr(args[1], "e") else None
+                st_.calls.append(("appended", ["char:%s" % (e.as_long() if e is not None and z3.is_bv_value(e) else "?")], f_.name, bb_))
+                return [(st_, VUnit())]
+            if re.search(r"^<String as Deref>::deref$", c):
+                return [(st_, args[0])]
+            return orig(exe_, st_, f_, bb_, callee, args, dest_ty)
+        summaries.summarize = summ
+        try:
+            try:
+                outs = exe.run(f.name, {1: sub}, st)
+            except PathEnd as e:
+                raise Inconclusive("%s: %s" % (f.name[-20:], e))
+        finally:
+            summaries.summarize = orig
+        if not outs:
+            raise Inconclusive("%s: no path returned" % f.name[-20:])
+        total += len(outs)
+        n_ok = 0
+        for (s2, ret) in outs:
+            mine = [c for c in s2.calls if c[2] == f.name]
+            flushes = [c for c in mine if re.search(r"flush_wrapping$", c[0])]
+            first_out = next((i for i, c in enumerate(s2.calls) if c[0] in ("printed", "appended")), len(s2.calls))
+            before = len(flushes) == 1 and s2.calls.index(flushes[0]) < first_out
+            post(exe, s2, z3.BoolVal(bool(before)), f.name, "%s flushes the pending text exactly once, before it reads the lines" % ("into_lines" if f is fl else "into_string"))
+            if not (isinstance(ret, VAgg) and ret.variant == "Ok"):
+                continue
+            n_ok += 1
+            if f is fl:
+                touched = [_short_callee(c[0]) for c in mine if mutators.search(_short_callee(c[0])) and c[0] not in ("printed", "appended")]
+                post(exe, s2, z3.BoolVal(not touched), f.name, "into_lines adds or removes no line of its own (calls: %s)" % touched)
+                post(exe, s2, z3.BoolVal(getattr(ret.fields[0], "name", None) == "the_lines"), f.name, "into_lines returns the renderer's lines")
+            else:
+                printed = [c[1][0] for c in s2.calls if c[0] == "printed"]
+                appended = [c[1][0] for c in s2.calls if c[0] == "appended"]
+                post(exe, s2, z3.BoolVal(printed == ["line0", "line1"]), f.name, "into_string prints every line once, in order (%s)" % printed)
+                post(exe, s2, z3.BoolVal(appended == ["text_of_line0", "char:10", "text_of_line1", "char:10"]), f.name,
+                     "into_string is the lines' texts, each followed by a newline (%s)" % appended)
+        if not n_ok:
+            raise Inconclusive("%s: no successful path" % f.name[-20:])
+    return {"function": fl.name, "paths": total}
+
+# ----------------------------------------------------------------------------
 # SPEC: an element with an id yields its fragment marker whatever the element converts to (process_dom_node, the code
 # after the dispatch): nothing -> the marker alone; a finished node -> the marker inserted at its start; pending
 # children -> the same children and hooks, and a constructor that puts the marker at the start of whatever the
@@ -5698,6 +5796,12 @@ ALL = [
          assumptions=["tree_map_reduce delivers the texts of the style elements in document order (extract_style_nodes / combine_vecs are not executed; "
                       "tree_traversal decides the order of the driver)", "StyleData::add_author_css is observed"],
          replay=lambda fd, vals, info: {"harness": "m_style_elements", "values": [[0]]}),
+    Spec("routes_same_lines", ["C10"], spec_routes_same_lines,
+         functions=["SubRenderer::into_lines", "SubRenderer::into_string"],
+         bounds="a renderer with an opaque list of lines (into_lines) / two opaque lines (into_string); flush_wrapping succeeds or fails arbitrarily",
+         assumptions=["flush_wrapping is observed: both routes call the same function on the same state (flush_wrapping_frags decides what it does)",
+                      "RenderLine::to_string is observed (line_routes_agree decides that it agrees with into_tagged_line)"],
+         replay=lambda fd, vals, info: {"harness": "m_routes_lines", "values": [[0]]}),
     Spec("frag_from_id", ["C14"], spec_frag_from_id,
          functions=["process_dom_node (element arm after the dispatch: id / name lookup, wrapping of Nothing / Finished / PendingChildren; the wrapping constructor closure)"],
          bounds="elements hr (nothing), br (finished), em and div (pending) with one attribute that is or is not the id; the element's own constructor answers None, Some or an error",
